@@ -14,6 +14,7 @@ func init() {
 	register(&Prop{ID: "C16", Run: runC16,
 		Technique: "static analysis: dominance of the already-running probe over every effect of Agent.Run, decision table of the probe and of the status getter (error value-flow), ordering of unlink and bind in the socket server (go/ssa)",
 		Decided: []string{
+			"DAG.Location (from which the socket address, the only lock, is derived) is on every way the result of filepath.Abs/Clean/EvalSymlinks/Join (C16.canonical-location); the accept loop of the run's socket is left only under the server's shutdown flag (C16.serve-until-shutdown)",
 			"Agent.Run reaches history open/write, socket creation and Schedule only on the success edge of the already-running probe (C16.probe-first)",
 			"the probe refuses unless the current status is `not started`; the status getter turns only a timeout of the socket request into an error (refusal), tests the request's own error for that, and maps every other failure to `not started` (C16.probe-table)",
 			"a live agent never answers `not started`: the /status handler overwrites the status with running before encoding (C08.live-is-running, shared)",
@@ -27,6 +28,8 @@ func runC16(e *Env) {
 	c16ProbeFirst(e)
 	c16ProbeTable(e)
 	c08LiveIsRunning(e)
+	c08ServeUntilShutdown(e, "C16.serve-until-shutdown")
+	c16CanonicalLocation(e)
 	c16AtomicClaim(e)
 }
 
@@ -471,8 +474,33 @@ func c08LiveIsRunning(e *Env) {
 	_, ss := e.EnumOf(schedRel, "Status")
 	running := ConstVal(ss, "StatusRunning")
 	ok := false
-	// the /status branch may live in a helper of the handler (virtual inlining view)
-	for _, hf := range sortedFns(e.inlinedSet(h, nil)) {
+	// the /status branch may live in a helper of the handler (virtual inlining view), or
+	// in a function of the agent package the handler reaches through a routing table
+	// (a dynamic call; callees by the call graph)
+	hset := e.inlinedSet(h, nil)
+	for _, hf := range sortedFns(hset) {
+		if n := e.P.CG.Nodes[hf]; n != nil {
+			for _, ed := range n.Out {
+				if ed.Site == nil || ed.Site.Common().StaticCallee() != nil || ed.Site.Common().IsInvoke() {
+					continue
+				}
+				targets := []*ssa.Function{ed.Callee.Func}
+				if c := ed.Callee.Func; c.Synthetic != "" { // a method expression's thunk: what it calls
+					for _, ci := range ir.CallsIn(c, func(cc *ssa.CallCommon) bool { return cc.StaticCallee() != nil }) {
+						targets = append(targets, ci.Common().StaticCallee())
+					}
+				}
+				for _, c := range targets {
+					if e.P.Funcs[c] && c.Synthetic == "" && rootFn(c).Package() == rootFn(h).Package() {
+						for g := range e.inlinedSet(c, nil) {
+							hset[g] = true
+						}
+					}
+				}
+			}
+		}
+	}
+	for _, hf := range sortedFns(hset) {
 		for _, ci := range ir.CallsIn(hf, func(c *ssa.CallCommon) bool { return strings.HasSuffix(ir.CalleeName(c), "model.Status).ToJSON") }) {
 			recv := ir.Resolve(ci.Common().Args[0])
 			for _, b := range hf.Blocks {
